@@ -696,13 +696,14 @@ def kernel_value_table(ctx, clause: str, what: str):
     bad, n_rows = None, 0
     try:
         # (the last triple: costs larger than any finite stand-in for 'no such transition' could be chosen with)
-        for costs in ((Fr(1), Fr(1), Fr(1)), (Fr(1), Fr(2), Fr(3)), (Fr(2), Fr(2), Fr(2)), (Fr(1, 2), Fr(1), Fr(3, 2)), (Fr(10**9), Fr(3 * 10**9), Fr(10**9 + 1))):
+        for costs in ((Fr(1), Fr(1), Fr(1)), (Fr(1), Fr(2), Fr(3)), (Fr(2), Fr(2), Fr(2)), (Fr(1, 2), Fr(1), Fr(3, 2)), (Fr(10**9), Fr(3 * 10**9), Fr(10**9 + 1)),
+                      (Fr(1), Fr(1), Fr(200001, 100000))):  # (last: a substitution dearer than insert + delete by one part in 200000 - not a tie)
             for eos in (EOS, None):
                 for inc in ((True, False) if eos is not None else (False,)):
                     for bf in (False, True):
                         for norm in (False, True):
                             for prefix in ((False, True, "without the full prefix") if what == "distance" else (False,)):
-                                if costs[0] > 1000 and (bf or norm):
+                                if (costs[0] > 1000 or costs[2].denominator > 1000) and (bf or norm):
                                     continue
                                 excl = prefix == "without the full prefix"
                                 warn = costs == (Fr(1), Fr(2), Fr(3)) and not bf and not prefix  # (with the diagnostics on: the same values)
